@@ -96,6 +96,17 @@ def gen_calls(tier, seed):
                     calls.append(call('make_sequence', msg, **kw))
                 if per % 3 == 2 or not quick:
                     calls.append(call('make_sequence', msg, version=1 + per // 12))
+    # every cell of the capacity table once: two chunks that are one character too long for (v, e) must end up in larger symbols
+    # (thorough: also the exact fit and the other modes)
+    for v in range(1, 40):
+        for e in ('L', 'M', 'Q', 'H'):
+            for kind, mode in ((('latin1', 'byte'),) if quick else (('latin1', 'byte'), ('numeric', 'numeric'), ('alphanumeric', 'alphanumeric'), ('kanji', 'kanji'))):
+                per = T.max_chars(v, e, mode, extra=20)
+                if per < 1:
+                    continue
+                calls.append(call('make_sequence', content(kind, 2 * per + 2), symbol_count=2, error=e, boost_error=False))
+                if not quick:
+                    calls.append(call('make_sequence', content(kind, 2 * per), symbol_count=2, error=e, boost_error=False))
     # explicit encodings and integers
     for enc in ('utf-8', 'iso-8859-15', 'shift_jis'):
         for k in (2, 3):
